@@ -139,43 +139,52 @@ def rule_one_at_a_time(ctx):
     for o in order:
         ctx.ob(R, fm, fm.node, len(spawn.get(o, [])) == 1, f"expected exactly one spawn of {o}", text="spawn:" + o)
     if all(len(spawn.get(o, [])) == 1 for o in order):
-        # each later spawn is reachable only when the earlier condition was false
-        conds = {}
-        for o in order:
-            n = spawn[o][0]
-            ifs = [a for a, r in n.within if isinstance(a, ast.If) and r == "body"]
-            conds[o] = ifs[-1] if ifs else None
-            ctx.ob(R, fm, n, conds[o] is not None, f"{o} spawned unconditionally", text="cond:" + o)
-            rets = isinstance(n.stmt, ast.Return)
-            ctx.ob(R, fm, n, rets, f"{o} spawn is not returned (several requests could start)", text="returned:" + o)
-        for i, o in enumerate(order):
-            for p in order[:i]:
-                if conds[p] is None:
-                    continue
-                tests = [t for t in cm.nodes if t.kind == "test" and t.stmt is conds[p]]
-                n = spawn[o][0]
-                ok = bool(tests) and all(n not in cm.reachable([m for m, l in t.succ if l == "T"], include_src=True) for t in tests) \
-                    and any(cm.dominates(t, n) for t in tests)
-                ctx.ob(R, fm, n, ok, f"{o} can be chosen while {p} still has work", text=f"priority:{p}>{o}")
-        # each condition is about the right manager query
+        # decided on the facts that hold at each spawn: its own manager query answered `work to do`, every earlier query answered
+        # `nothing` -- whatever the spelling (if-chain with returns, guard clauses, nested ifs)
+        from ..rulekit import must_facts, atoms_of_test
+        mf = must_facts(cm)
         q = {"_do_add_partitions_to_txn": "partitions_to_add", "_do_add_offsets_to_txn": "consumer_group_to_add",
              "_do_txn_offset_commit": "offsets_to_commit", "_do_txn_commit": "needs_transaction_commit"}
-        for o in order:
+        qvar = {}
+        for st_ in ast.walk(fm.node):
+            if isinstance(st_, ast.Assign) and len(st_.targets) == 1 and isinstance(st_.targets[0], ast.Name) and isinstance(st_.value, ast.Call) \
+                    and call_attr(st_.value) in q.values() and unparse(st_.value.func.value) in ("txn_manager", "self._txn_manager"):
+                qvar[call_attr(st_.value)] = st_.targets[0].id
+        ctx.anchor(len(qvar) == 4, f"the four manager queries bound to locals in _maybe_do_transactional_request: {sorted(qvar)}")
+
+        def has_work(f, v):
+            return (v, "truthy", "") in f or (v, "is not", "None") in f
+
+        def no_work(f, v):
+            return (v, "falsy", "") in f or (v, "is", "None") in f
+        for i, o in enumerate(order):
             n = spawn[o][0]
-            a = [unparse(x) for x in n.ast.args[0].args]
-            src = set()
-            for nm in a:
-                for d in local_defs(cm, nm.split(",")[0]):
-                    v = def_value(d)
-                    if v is None and isinstance(d.stmt, ast.Assign):
-                        v = d.stmt.value  # tuple unpacking of a whole value
-                    if isinstance(v, ast.Call):
-                        src.add(call_attr(v))
-                    elif isinstance(v, ast.Name):
-                        for d2 in local_defs(cm, v.id):
-                            if isinstance(def_value(d2), ast.Call):
-                                src.add(call_attr(def_value(d2)))
-            ctx.ob(R, fm, n, q[o] in src, f"{o} is not driven by txn_manager.{q[o]}()", text="query:" + o)
+            f = mf[n]
+            v = qvar[q[o]]
+            ctx.ob(R, fm, n, has_work(f, v), f"{o} spawned without txn_manager.{q[o]}() having reported work", text="cond:" + o)
+            ctx.ob(R, fm, n, isinstance(n.stmt, ast.Return), f"{o} spawn is not returned (several requests could start)", text="returned:" + o)
+            for p_ in order[:i]:
+                # (the earlier query's variable may be re-bound later, so the fact is read off the test's edges, not at the spawn)
+                vp = qvar[q[p_]]
+                tp_ = [t for t in cm.nodes if t.kind == "test" and (atoms_of_test(t.ast, True) | atoms_of_test(t.ast, False)) & {(vp, "truthy", ""), (vp, "falsy", ""), (vp, "is", "None"), (vp, "is not", "None")}]
+                okp = bool(tp_) and any(cm.dominates(t, n) for t in tp_)
+                for t in tp_:
+                    for m_, l_ in t.succ:
+                        if l_ in ("T", "F") and has_work(atoms_of_test(t.ast, l_ == "T"), vp) and n in cm.reachable([m_], exc=False, include_src=True):
+                            okp = False
+                ctx.ob(R, fm, n, okp, f"{o} can be chosen while {p_} still has work", text=f"priority:{p_}>{o}")
+            # the arguments are what that query returned (the value itself, its components, or *value)
+            names = set()
+            for x in n.ast.args[0].args:
+                names |= {y.id for y in ast.walk(x) if isinstance(y, ast.Name)}
+            ok = True
+            for nm in names - {"self"}:
+                if nm == v:
+                    continue
+                ds = [d for d in local_defs(cm, nm) if cm.dominates(d, n)]
+                ds = [d for d in ds if not any(o_ is not d and cm.dominates(d, o_) for o_ in ds)]       # the definition closest to the spawn
+                ok = ok and bool(ds) and all(isinstance(d.stmt, ast.Assign) and unparse(d.stmt.value) == v for d in ds)
+            ctx.ob(R, fm, n, ok and bool(names - {"self"}), f"{o} is not driven by txn_manager.{q[o]}()", text="query:" + o)
     # manager queries
     f1 = ctx.fn(f"{TXN}.offsets_to_commit")
     c1 = ctx.cfg(f1)
@@ -589,6 +598,7 @@ def run(ctx):
     rule_txn_mute(ctx)
     rule_one_at_a_time(ctx)
     rule_flush_before_end(ctx)
+    c02.rule_flush(ctx)
     rule_send_guard(ctx)
     rule_registry_reset(ctx)
     rule_error_tables(ctx)
